@@ -400,3 +400,32 @@ def fixedrep(rng, alphabet="abc"):
         junk = "".join(rng.choice(alphabet + "x") for _ in range(rng.randint(0, 3)))
         inputs.append(rng.choice(["", "x", w[0]]) + w * k + junk + rng.choice(["", w[0], w, w[0] + w[1]]))
     return ast, inputs
+
+
+def precond(rng, alphabet="abc"):
+    """'^', then terms of known length that leave no positional precondition of their own (an
+    alternation, a group around one, a back-reference-free capture), then a counted repeat of a
+    single character or class: the shape whose positional precondition is probed at a fixed offset
+    that may lie beyond a short input (Regex construction probes the empty input)"""
+    def ch():
+        return ("chr", rng.choice(alphabet))
+    def fixed_alt():
+        k = rng.randint(1, 2)
+        def w():
+            return ch() if k == 1 else ("seq", [ch() for _ in range(k)])
+        return ("alt", [w(), w()])
+    head = []
+    if rng.random() < 0.85:
+        head.append(("bol",))
+    for _ in range(rng.randint(0, 2)):
+        a = fixed_alt()
+        head.append(rng.choice([("nc", a), ("grp", a), ("nc", ("grp", a))]))
+    if rng.random() < 0.2:
+        head.append(ch())
+    atom = rng.choice([ch(), ("cls", False, [("c", rng.choice(alphabet)), ("c", rng.choice(alphabet))], None), ("dot",)])
+    mn, mx = rng.choice([(2, 2), (3, 3), (2, None), (2, 4), (3, 5), (1, None), (1, 3), (0, 2), (2, 3)])
+    rep = ("q", atom, mn, mx, rng.random() < 0.7)
+    if rng.random() < 0.3:
+        rep = ("grp", rep)
+    tail = rng.choice([("seq", []), ch(), ("eol",), ("seq", [ch(), ch()]), ("nc", fixed_alt())])
+    return ("seq", head + [rep, tail])
